@@ -93,17 +93,13 @@ def campaign(tier, seed):
             n = extract_cases(mc_out, cases)
             os.remove(mc_out)
             trace = st.path("trace_%s.ndjson" % camp)
-            hashes = st.path("hashes_%s.json" % camp)
-            # process 1 writes output hashes, process 2 compares (cross-process determinism)
-            rc, out, _ = sh([BIN, "module", "--cases", cases, "--out", trace, "--reps", "1",
-                             "--hashes-out", hashes], timeout=3000)
-            if rc != 0:
-                raise ToolError("harness failed: " + out[-2000:])
-            rc, out, _ = sh([BIN, "module", "--cases", cases, "--out", trace, "--reps", "2",
-                             "--hashes-in", hashes], timeout=3000)
-            if rc != 0:
-                raise ToolError("harness failed: " + out[-2000:])
-            hstat = json.loads(out.strip().splitlines()[-1])
+            # process 1 writes output hashes, process 2 compares (cross-process determinism); supervised per slice
+            hstat, aborts = run_harness(
+                lambda c, t, tag: [[BIN, "module", "--cases", c, "--out", t, "--reps", "1", "--hashes-out", c + ".hashes"],
+                                   [BIN, "module", "--cases", c, "--out", t, "--reps", "2", "--hashes-in", c + ".hashes"]],
+                cases, trace, chunk=1500, par=6)
+            for a in aborts:
+                res["records"].append(dict(a, camp=camp, l=0, ops=[]))
             tv_out = st.path("tv_%s.out" % camp)
             # one TLC run per group of whole histories (a history starts with its base event)
             tv = run_tlc_trace("ModuleTrace", os.path.join(SPEC, "ModuleTrace.cfg"), trace, tv_out, workers=1,
@@ -172,9 +168,8 @@ def replay(prop, path):
     cases = os.path.join(d, "cases.ndjson")
     open(cases, "w").write(json.dumps(case) + "\n")
     trace = os.path.join(d, "trace.ndjson")
-    rc, out, _ = sh([BIN, "module", "--cases", cases, "--out", trace, "--reps", "3"], timeout=600)
-    if rc != 0:
-        raise ToolError("harness failed: " + out[-2000:])
+    if replay_abort(prop, path, [[BIN, "module", "--cases", cases, "--out", trace, "--reps", "3"]]):
+        return 1
     tv_out = os.path.join(d, "tv.out")
     tv = run_tlc("ModuleTrace", os.path.join(SPEC, "ModuleTrace.cfg"), tv_out, workers=1,
                  env={"TRACE": trace}, deque=True, timeout=600)
